@@ -10,7 +10,7 @@ LEVEL_TEXT = ("proved for the free-text searchers: every find_domains node carri
               "URL / path nodes are covered by the bounded stand-in only: every network.ip / domain / email / url node met while scanning generated indicator-rich inputs with the default registry, "
               "and every URL node of the URL grammar, is checked against the clauses of the property (canonical quad equal to its text in free text, name + dot + registered "
               "TLD, LDH and length >= 7 in free text, local@domain, scheme and host, value = percent-normalised text, label iff shortened)")
-LEVEL_NOTE = ("ASSUMED (library models, listed in the evidence): ipaddress.IPv4Address(text) accepts exactly the canonical dotted quads; inet_aton accepts them and IPv4Address(packed).compressed gives the same text back - is_ip and parse_ip are verified against these; membership in the "
+LEVEL_NOTE = ("the languages of IP_RE, DOMAIN_RE and EMAIL_RE are pinned (pin/<CONSTANT>: look-behinds / look-aheads erased on both sides; URL_RE is not pinned). ASSUMED (library models, listed in the evidence): ipaddress.IPv4Address(text) accepts exactly the canonical dotted quads; inet_aton accepts them and IPv4Address(packed).compressed gives the same text back - is_ip and parse_ip are verified against these; membership in the "
               "1488-entry TLD table is an uninterpreted predicate shared by code and specification; regex.sub with a callback is ASSUMED to replace every match by callback(match); the nested callback of normalize_percent_encoding is verified (one unreserved byte or the upper-cased escape: never longer, printable) and so is the label clause (escape.percent exactly when the text got shorter); WHICH bytes are unreserved is compared with the reference by the bounded stand-in")
 DESIGN_REF = "DESIGN.md 6 (C10)"
 TECHNIQUE = "contract-based deductive verification of the free-text searchers (pyvc, z3 regular-language inclusions) + bounded run-time contracts for URL nodes"
